@@ -906,7 +906,7 @@ class _UpdateInterp(FinamInterp):
             if attr in ("pull_data", "push_data"):
                 return Sym("slotcall", Ref(obj), attr)
             return Sym("slotattr", obj.label, attr)
-        if isinstance(obj, Sym) and obj.op in ("pulled", "slotattr", "attr", "tool", "copy", "called"):
+        if isinstance(obj, Sym) and obj.op in ("pulled", "slotattr", "attr", "tool", "copy", "called", "T0", "tadd"):
             return Sym("attr", obj, attr)
         return super().get_attr(obj, attr, node, mod)
 
@@ -929,6 +929,8 @@ class _UpdateInterp(FinamInterp):
             return Sym("called", fv, *args)  # a method of pulled data (`.item()`, `.copy()`): an uninterpreted value
         if isinstance(fv, Closure) and getattr(fv.func, "name", "") == "is_timedelta":
             return isinstance(args[0], Sym) and args[0].op in ("step", "smul")
+        if isinstance(fv, Closure) and getattr(fv.func, "name", "") == "assert_type":
+            return None  # public finam.data.tools check of user values
         if isinstance(fv, Closure) and getattr(fv.func, "name", "") in ("get_magnitude", "strip_time", "get_units", "quantify", "to_units"):
             return Sym("tool", getattr(fv.func, "name", ""), *args)  # public finam.data.tools functions
         return super().call_hook(fv, args, kwargs, node, mod)
@@ -946,9 +948,26 @@ class _UpdateInterp(FinamInterp):
         return super().construct(cls, args, kwargs, node)
 
 
-def _abstract_update(repo, c):
-    """(announced next pull time, [(input, pull time)]) of one abstract _update; raises AnalysisError / Undecided / Raised when the
-    body is outside the vocabulary."""
+def _abstract_update(repo, c, clocks=None):
+    """Tries the constructor stand-ins in the shapes the in-repo components use for their call-back tables."""
+    last = None
+    for shape in ("callables", "pairs"):
+        cl = []
+        try:
+            rounds = _abstract_update_1(repo, c, cl, shape)
+        except (AnalysisError, Undecided, Raised, KeyError, TypeError) as exc:
+            last = exc
+            continue
+        if clocks is not None:
+            clocks.extend(cl)
+        return rounds
+    raise AnalysisError(f"outside vocabulary: {last}")
+
+
+def _abstract_update_1(repo, c, clocks=None, cb_shape="callables"):
+    """[(announced next pull time, [(input, pull time)])] of two consecutive abstract updates (the clock before / after each update
+    is appended to `clocks`); raises AnalysisError / Undecided / Raised when the body is outside the vocabulary."""
+    clocks = clocks if clocks is not None else []
     from ..absbase import seed_from_init, set_backed
     it = _UpdateInterp(repo)
     params = {}
@@ -964,7 +983,8 @@ def _abstract_update(repo, c):
                 continue
             if i >= len(pos) - len(a.defaults) and n not in ("start", "step", "inputs", "outputs", "callbacks"):
                 continue
-            params[n] = {"start": Sym("T0"), "step": Sym("step"), "end": Sym("X", "end"), "callbacks": {"A": Sym("X", "callback")}}.get(
+            params[n] = {"start": Sym("T0"), "step": Sym("step"), "end": Sym("X", "end"),
+                         "callbacks": {"A": Sym("X", "callback")} if cb_shape == "callables" else {"A": (Sym("X", "callback"), Obj(label="infoA"))}}.get(
                 n, {"A": Obj(label="infoA"), "B": Obj(label="infoB")} if n in ("inputs", "outputs") else Sym("X", n))
     me = Obj(cls=c, label=c.name)
     seed_from_init(it, c, me, params)
@@ -975,12 +995,16 @@ def _abstract_update(repo, c):
     it.store_attr(me, "time", Sym("T0"), None)
     g = repo.resolve(c, "next_time", "getter")
     rounds = []
+    tg = repo.resolve(c, "time", "getter")
     for _k in range(2):  # two consecutive updates: a clock recomputed from the start regroups the calendar arithmetic
         ann = it.run(g, [], self_obj=me) if g is not None else it.run(repo.resolve(c, "_next_time"), [], self_obj=me)
+        before = it.run(tg, [], self_obj=me) if tg is not None else None
         it.pulls = []
         it.run(repo.resolve(c, "_update"), [], self_obj=me)
         it.store_attr(me, "status", Sym("enum", "ComponentStatus", "UPDATED"), None)
+        after = it.run(tg, [], self_obj=me) if tg is not None else None
         rounds.append((ann, list(it.pulls)))
+        clocks.append((before, after))
     return rounds
 
 
@@ -1033,9 +1057,11 @@ def r01_next_pull(repo, sink):
             sink.unknown("R01", f"next-pull:{c.name}", up, "clock update outside vocabulary")
             continue
         wrong = [(U(n), t) for n, t in pulls if t != ann]
-        sink.check(not wrong and bool(pulls) or not pulls, "R01", f"next-pull:{c.name}", up,
-                   ok=f"{len(pulls)} pull(s) in _update at the announced time {ann}",
-                   bad=f"announced {ann}, pulls at {wrong}", pulls=len(pulls))
+        if wrong:
+            # the clock terms are read off the shape of the code: a mismatch there is a reason to look, not a verdict
+            sink.unknown("R01", f"next-pull:{c.name}", up, f"_update is outside the abstract vocabulary and its clock terms do not match syntactically: announced {ann}, pulls at {wrong}")
+        else:
+            sink.ok("R01", f"next-pull:{c.name}", up, f"{len(pulls)} pull(s) in _update at the announced time {ann} (syntactic clock terms)", pulls=len(pulls))
     sink.note("R01.decided_by_abstract_update", decided)
 
 
@@ -1165,8 +1191,10 @@ class _RunInterp(FinamInterp):
 
 def r05s_run_selection(repo, sink):
     """Every scheduling step of run() starts from a least-advanced unfinished time component,
-    and the loop ends exactly when every component is finished or has reached the end time."""
-    from ..absbase import seed_from_init
+    and the loop ends exactly when every component is finished or has reached the end time.
+    Observed on the real constructor / connect / run over scripted stand-in components (rules/lifetrace.py): nothing of the
+    composition is stubbed, the stand-ins have no slots, so every update the driver performs is the component it selected."""
+    from .lifetrace import _drive
     comp_cls = repo.cls("Composition")
     run = repo.resolve(comp_cls, "run", "method")
     scenarios = {
@@ -1180,32 +1208,24 @@ def r05s_run_selection(repo, sink):
     }
     worst, steps = None, 0
     for name, (spec, end) in scenarios.items():
-        t = Topo(repo)
-        comps = {}
-        for k, v in spec.items():
-            c = t.comp(k)
-            c.fields["time"] = v["t"]
-            c.fields["status"] = Sym("enum", "ComponentStatus", "VALIDATED")
-            comps[k] = c
-        it = _RunInterp(repo, spec)
-        it.comps = comps
-        me = Obj(cls=comp_cls, label="composition")
-        seed_from_init(it, comp_cls, me, {"components": list(comps.values())})
-        me.fields["logger"] = Logger(label="logger")
-        it.max_loop = 1000
+        script = {k: dict(step=v["step"], connect_calls=1, _t0=v["t"], deps=v.get("deps", ()), finish_at=v.get("finish_at")) for k, v in spec.items()}
         stopped = False
         try:
-            it.run(run, [], {"start_time": 0, "end_time": end}, self_obj=me)
-        except _StopRun:
-            stopped = True
-        except Raised as r:
-            worst = worst or f"scenario {name}: run raises {r.name}"
-            continue
-        except (Undecided, AnalysisError) as exc:
+            it, outcome = _drive(repo, script, end=end)
+        except AnalysisError as exc:
+            if "more than 300 updates" in str(exc):
+                worst = worst or f"scenario {name}: the run loop is still scheduling after 300 updates (it should have ended long ago)"
+                continue
             sink.unknown("R05", "run-selection", run, f"scenario {name}: run outside vocabulary: {exc}")
             return
-        steps += len(it.selected)
-        for i, (sel, before) in enumerate(it.selected):
+        except Undecided as exc:
+            sink.unknown("R05", "run-selection", run, f"scenario {name}: run outside vocabulary: {exc}")
+            return
+        if outcome is not None:
+            worst = worst or f"scenario {name}: run raises {outcome}"
+            continue
+        steps += len(it.updates)
+        for i, (sel, before) in enumerate(it.updates):
             alive = {k: tm for k, (tm, fin) in before.items() if not fin}
             if not alive:
                 worst = worst or f"scenario {name}, step {i}: a step is started although every component is finished"
@@ -1217,20 +1237,17 @@ def r05s_run_selection(repo, sink):
                                   f"{'/'.join(who)} is less advanced (time {least}); times before the step: "
                                   f"{ {k: v[0] for k, v in before.items()} }")
                 break
-        if stopped and worst is None:
-            worst = f"scenario {name}: the run loop is still scheduling after {len(it.selected)} steps (it should have ended long ago)"
-        if stopped:
-            continue
-        final = {k: (c.fields["time"], c.fields["status"].args[1] == "FINISHED") for k, c in comps.items()}
-        lag = sorted(k for k, (tm, fin) in final.items() if not fin and tm < end)
+        final = {k: (c.fields["time"], c.fields["status"] == Sym("enum", "ComponentStatus", "FINISHED")) for k, c in it.comps.items()}
+        finished_by_script = {k for k, v in spec.items() if v.get("finish_at") is not None and final[k][0] >= v["finish_at"]}
+        lag = sorted(k for k, (tm, fin) in final.items() if k not in finished_by_script and tm < end)
         if lag:
             worst = worst or f"scenario {name}: run returns while {lag} are neither finished nor at the end time {end} (times {final})"
-        for i, (_sel, before) in enumerate(it.selected):
+        for i, (_sel, before) in enumerate(it.updates):
             if not any((not fin) and tm < end for tm, fin in before.values()):
                 worst = worst or (f"scenario {name}, step {i}: a further step is started although every component already was finished or at the "
                                   f"end time {end} (times/finished before the step: {before})")
                 break
-        if it.finalized < 1:
+        if not any(p == "finalize" for _c, p in it.trace):
             worst = worst or f"scenario {name}: run returns without finalizing"
     sink.check(worst is None, "R05", "run-selection", run,
                ok=f"{len(scenarios)} scripted runs, {steps} scheduling steps: each starts from a least-advanced unfinished component; the loop ends when all "
